@@ -23,7 +23,7 @@
 EXTENDS Integers, Sequences, FiniteSets, TLC, Json
 
 CONSTANTS W,      \* 32 or 64
-          Mode,   \* "rt" | "union" | "sethash" | "corrupt"
+          Modes,  \* subset of {"rt", "union", "sethash", "corrupt"}
           Seed, Emit
 
 VARIABLE val
@@ -50,8 +50,8 @@ ObsSets == {Obs(a, n) : a \in 0 .. 3, n \in {0, 1, 5}}
 UnmarshalOK(stored, recvW, recvH) ==
    /\ recvW = W
    /\ IF recvH = 0 THEN stored.h \in Registered ELSE recvH = stored.h
-RtCases == IF Mode # "rt" THEN {} ELSE
-   {[src |-> [h |-> h, p |-> p, obs |-> os], recvw |-> rw, recvh |-> rh, more |-> Obs(h + p, 3)]
+RtCases == IF "rt" \notin Modes THEN {} ELSE
+   {[k |-> "rt", src |-> [h |-> h, p |-> p, obs |-> os], recvw |-> rw, recvh |-> rh, more |-> Obs(h + p, 3)]
       : h \in Hashes, p \in {4, 6}, os \in ObsSets, rw \in {32, 64}, rh \in {0, 1, 2, 3}}
 RtSketch(c) == WriteAll(Empty(c.src.h, c.src.p), c.src.obs)
 RtExpect(c) == IF UnmarshalOK(RtSketch(c), c.recvw, c.recvh) THEN "ok" ELSE "error"
@@ -61,20 +61,20 @@ RtAfter(c) == WriteAll(RtSketch(c), c.more)
 UnionOK(rh, a, b) == a.p = b.p /\ a.h = b.h /\ (rh = 0 \/ rh = a.h)
 UnionReg(a, b) == [i \in 1 .. M(a.p) |-> Max(a.reg[i - 1], b.reg[i - 1])]
 \* alias: which sketch is the receiver ("fresh": a third sketch with hash rh)
-UnionCases == IF Mode # "union" THEN {} ELSE
-   {[a |-> [h |-> ha, p |-> pa, obs |-> Obs(ha, 5)], b |-> [h |-> hb, p |-> pb, obs |-> Obs(hb + 2, 5)],
+UnionCases == IF "union" \notin Modes THEN {} ELSE
+   {[k |-> "union", a |-> [h |-> ha, p |-> pa, obs |-> Obs(ha, 5)], b |-> [h |-> hb, p |-> pb, obs |-> Obs(hb + 2, 5)],
      alias |-> al, rh |-> IF al = "a" THEN ha ELSE IF al = "b" THEN hb ELSE rh]
       : ha \in {1, 2}, hb \in {1, 2}, pa \in {4, 5}, pb \in {4, 5}, al \in {"fresh", "a", "b"}, rh \in {0, 1, 2}}
 USk(x) == WriteAll(Empty(x.h, x.p), x.obs)
 UnionExpect(c) == IF UnionOK(c.rh, USk(c.a), USk(c.b)) THEN "ok" ELSE "error"
 
 (* ---- SetHash ---- *)
-SetHashCases == IF Mode # "sethash" THEN {} ELSE {[rh |-> rh, newh |-> nh] : rh \in {0, 1, 2}, nh \in {1, 2}}
+SetHashCases == IF "sethash" \notin Modes THEN {} ELSE {[k |-> "sethash", rh |-> rh, newh |-> nh] : rh \in {0, 1, 2}, nh \in {1, 2}}
 SetHashExpect(c) == IF c.rh = 0 THEN "ok" ELSE "error"
 
 (* ---- corrupted encodings ---- *)
-CorruptCases == IF Mode # "corrupt" THEN {} ELSE
-   {[size |-> sz, h |-> h, p |-> p, reglen |-> rl, recvh |-> rh]
+CorruptCases == IF "corrupt" \notin Modes THEN {} ELSE
+   {[k |-> "corrupt", size |-> sz, h |-> h, p |-> p, reglen |-> rl, recvh |-> rh]
       : sz \in {0, 8, 32, 64}, h \in Hashes, rh \in {0, 1},
         p \in {0, 3, 4, 5, 10}, rl \in {0, 1, 15, 16, 17, 31, 32, 33, 1024}}
 WellFormed(c) == c.size = W /\ c.p >= 4 /\ c.p <= W /\ c.reglen = M(c.p)
@@ -87,35 +87,35 @@ Spec == Init /\ [][Next]_vars
 
 (***************************** theorems (R1) ********************************)
 \* registers only grow, stay within 0 .. q+1, and the order of observations does not matter
-RegBounds == Mode = "rt" => \A i \in DOMAIN RtAfter(val).reg :
+RegBounds == val.k = "rt" => \A i \in DOMAIN RtAfter(val).reg :
                  /\ RtAfter(val).reg[i] >= RtSketch(val).reg[i]
                  /\ RtAfter(val).reg[i] >= 0 /\ RtAfter(val).reg[i] <= (W - val.src.p) + 1
 Rev(s) == [i \in 1 .. Len(s) |-> s[Len(s) + 1 - i]]
-OrderFree == Mode = "rt" => WriteAll(Empty(val.src.h, val.src.p), Rev(val.src.obs)) = RtSketch(val)
+OrderFree == val.k = "rt" => WriteAll(Empty(val.src.h, val.src.p), Rev(val.src.obs)) = RtSketch(val)
 \* union is commutative, idempotent, and equals observing both streams in one sketch
-UnionLaws == (Mode = "union" /\ val.a.p = val.b.p) =>
+UnionLaws == (val.k = "union" /\ val.a.p = val.b.p) =>
                /\ UnionReg(USk(val.a), USk(val.b)) = UnionReg(USk(val.b), USk(val.a))
                /\ UnionReg(USk(val.a), USk(val.a)) = RegSeq(USk(val.a))
                /\ UnionReg(USk(val.a), USk(val.b)) = RegSeq(WriteAll(USk(val.a), val.b.obs))
 \* a well-formed corrupted encoding is exactly one a marshaller could have produced
-CorruptIsMarshal == Mode = "corrupt" => (WellFormed(val) => val.reglen = M(val.p) /\ val.size = W)
+CorruptIsMarshal == val.k = "corrupt" => (WellFormed(val) => val.reglen = M(val.p) /\ val.size = W)
 
 (**************************** generator (R2) ********************************)
 ObsJ(os) == [list |-> os]
 EmitCase ==
   Emit =>
-    CASE Mode = "rt" ->
+    CASE val.k = "rt" ->
            PrintT(ToJson([k |-> "rt", w |-> W, h |-> val.src.h, p |-> val.src.p, obs |-> ObsJ(val.src.obs),
                           recvw |-> val.recvw, recvh |-> val.recvh, expect |-> RtExpect(val),
                           reg |-> RegSeq(RtSketch(val)), more |-> ObsJ(val.more), regafter |-> RegSeq(RtAfter(val))]))
-      [] Mode = "union" ->
+      [] val.k = "union" ->
            PrintT(ToJson([k |-> "union", w |-> W, a |-> [h |-> val.a.h, p |-> val.a.p, obs |-> ObsJ(val.a.obs)],
                           b |-> [h |-> val.b.h, p |-> val.b.p, obs |-> ObsJ(val.b.obs)], alias |-> val.alias,
                           rh |-> val.rh, expect |-> UnionExpect(val),
                           reg |-> [list |-> IF UnionExpect(val) = "ok" THEN UnionReg(USk(val.a), USk(val.b)) ELSE <<>>]]))
-      [] Mode = "sethash" ->
+      [] val.k = "sethash" ->
            PrintT(ToJson([k |-> "sethash", w |-> W, rh |-> val.rh, newh |-> val.newh, expect |-> SetHashExpect(val)]))
-      [] Mode = "corrupt" ->
+      [] val.k = "corrupt" ->
            PrintT(ToJson([k |-> "corrupt", w |-> W, size |-> val.size, h |-> val.h, p |-> val.p, reglen |-> val.reglen,
                           recvh |-> val.recvh, expect |-> CorruptExpect(val)]))
 =============================================================================
